@@ -2,8 +2,11 @@
    Proofs/FrontEndWitness.v : parse_jsonschema_keeps_constraints_refuted, parse_preserves_acceptance_refuted, frontend_nonvacuous
    Proofs/FrontEndFields.v  : parse_jsonschema_keeps_constraints_partial_refuted (one-branch union with a constrained branch),
                               parse_jsonschema_keeps_constraints_partial_weak (extra hypothesis field_union_plain f = true)
-   Proofs/FrontEndAccept.v  : parse_preserves_acceptance_partial_weak (extra hypotheses schema_bounds_small s = true,
-                              schema_aliases_resolve s = true) *)
+   Proofs/FrontEndAccept.v  : parse_preserves_acceptance_partial_strong (the required statement, no extra hypothesis);
+                              parse_preserves_acceptance_partial_weak (first form, with schema_bounds_small s = true and
+                              schema_aliases_resolve s = true: now a corollary)
+   Proofs/FrontEndLemmas.v  : Module FEDec: decimal print/parse round trip (dec_roundtrip, dec_roundtrip_nonpos, parse_z_string,
+                              parse_dec_string_neg), dec_compare_shift, num_norm_value *)
 From Cog Require Import Model.IR Model.Json Model.Src Model.FrontEnd Model.FrontEndSpec.
 From Cog Require Export Proofs.FrontEndLemmas Proofs.FrontEndWitness Proofs.FrontEndFields Proofs.FrontEndAccept.
 
@@ -20,4 +23,6 @@ Print Assumptions frontend_nonvacuous.
 Print Assumptions parse_jsonschema_keeps_constraints_partial_refuted.
 Print Assumptions parse_jsonschema_keeps_constraints_partial_weak.
 Print Assumptions parse_preserves_acceptance_partial_weak.
+Print Assumptions parse_preserves_acceptance_partial_strong.
 Print Assumptions frontend_weak_nonvacuous.
+Check parse_preserves_acceptance_partial_strong.
